@@ -1,9 +1,11 @@
 package props
 
 import (
+	"fmt"
 	"go/ast"
 	"go/token"
 	"go/types"
+	"os"
 	"regexp/syntax"
 	"strconv"
 	"strings"
@@ -525,6 +527,12 @@ func absoluteOffset(c *core.Ctx, fn *core.Func, e ast.Expr, depth int) (bool, st
 			if !ok {
 				return false, "unsupported definition of " + x.Name
 			}
+			// x += k / x -= k: a constant shift of whatever x was
+			if (as.Tok == token.ADD_ASSIGN || as.Tok == token.SUB_ASSIGN) && len(as.Rhs) == 1 {
+				if _, isK := core.IntConst(info, as.Rhs[0]); isK {
+					continue
+				}
+			}
 			// position of obj among lhs
 			idx := -1
 			for i, l := range as.Lhs {
@@ -584,18 +592,32 @@ func ruleOffsetProvenance(c *core.Ctx) {
 		}
 		o.Require(n >= 1, "findXRef has no success return")
 		// range check mentions headerOffset
-		has := false
-		for _, v := range g.BranchVertices() {
-			if v.Cond.Expr != nil {
-				ast.Inspect(v.Cond.Expr, func(n ast.Node) bool {
-					if e, ok := n.(ast.Expr); ok && isHeaderOffsetSel(fx.Info(), e) {
-						has = true
-					}
-					return true
-				})
+		has, anyRange := false, false
+		// comparisons wherever they are evaluated (a condition, or a boolean local that names it)
+		ast.Inspect(fx.Decl.Body, func(n ast.Node) bool {
+			be, ok := n.(*ast.BinaryExpr)
+			if !ok {
+				return true
 			}
+			switch be.Op {
+			case token.LSS, token.LEQ, token.GTR, token.GEQ:
+			default:
+				return true
+			}
+			if _, isK := core.IntConst(fx.Info(), be.Y); isK {
+				return true
+			}
+			anyRange = true
+			if mentionsHeaderOffset(fx, be, 2) {
+				has = true
+			}
+			return true
+		})
+		if !has && !anyRange {
+			o.Unrec("no range check of the startxref value was found in findXRef")
+		} else {
+			o.Require(has, "the startxref range check does not take headerOffset into account")
 		}
-		o.Require(has, "the startxref range check does not take headerOffset into account")
 	})
 	c.Check(rule, "pdf.(*Reader).readXRef/prev-range", "the /Prev range check takes headerOffset into account", func(o *core.Ob) {
 		fn := c.Prog.Func("pdf", "(*Reader).readXRef")
@@ -1383,6 +1405,91 @@ func ruleC04Lexical(c *core.Ctx) {
 			}
 			return false
 		}
+		// the parsed numbers: results of strconv.ParseInt/ParseUint applied to a constant
+		// slice of the 20-byte entry, told apart by the bytes they are parsed from
+		offV, genV := map[types.Object]bool{}, map[types.Object]bool{}
+		var slices []string
+		parseCalls := 0
+		ast.Inspect(fn.Decl.Body, func(n ast.Node) bool {
+			as, ok := n.(*ast.AssignStmt)
+			if !ok || len(as.Rhs) != 1 || len(as.Lhs) != 2 {
+				return true
+			}
+			call, ok := ast.Unparen(as.Rhs[0]).(*ast.CallExpr)
+			if !ok || len(call.Args) == 0 {
+				return true
+			}
+			if k := core.CalleeKey(info, call); k != "strconv.ParseInt" && k != "strconv.ParseUint" {
+				return true
+			}
+			parseCalls++
+			arg := ast.Unparen(call.Args[0])
+			if conv, isConv := arg.(*ast.CallExpr); isConv && len(conv.Args) == 1 {
+				if tv, isT := info.Types[conv.Fun]; isT && tv.IsType() {
+					arg = ast.Unparen(conv.Args[0])
+				}
+			}
+			sl, ok := arg.(*ast.SliceExpr)
+			if !ok {
+				return true
+			}
+			lo, hi := int64(0), int64(-1)
+			okLo, okHi := true, false
+			if sl.Low != nil {
+				lo, okLo = core.IntConst(info, sl.Low)
+			}
+			if sl.High != nil {
+				hi, okHi = core.IntConst(info, sl.High)
+			}
+			if !okLo || !okHi {
+				return true
+			}
+			slices = append(slices, itoa(int(lo))+":"+itoa(int(hi)))
+			if obj := core.ObjOf(info, as.Lhs[0]); obj != nil {
+				switch {
+				case lo == 0 && hi == 10:
+					offV[obj] = true
+				case lo == 11 && hi == 16:
+					genV[obj] = true
+				}
+			}
+			return true
+		})
+		for round := 0; round < 3; round++ {
+			ast.Inspect(fn.Decl.Body, func(n ast.Node) bool {
+				as, ok := n.(*ast.AssignStmt)
+				if !ok || len(as.Lhs) != len(as.Rhs) {
+					return true
+				}
+				for i, r := range as.Rhs {
+					src := core.ObjOf(info, peelConv(info, r))
+					dst := core.ObjOf(info, as.Lhs[i])
+					if src == nil || dst == nil {
+						continue
+					}
+					if _, isID := ast.Unparen(as.Lhs[i]).(*ast.Ident); !isID {
+						continue
+					}
+					if offV[src] {
+						offV[dst] = true
+					}
+					if genV[src] {
+						genV[dst] = true
+					}
+				}
+				return true
+			})
+		}
+		mentionsVar := func(set map[types.Object]bool, e ast.Expr) bool {
+			found := false
+			ast.Inspect(e, func(n ast.Node) bool {
+				if id, ok := n.(*ast.Ident); ok && set[info.ObjectOf(id)] {
+					found = true
+				}
+				return true
+			})
+			return found
+		}
 		for _, st := range expandStores(g, mapStores(g, m)) {
 			st := st
 			kinds := env.ReachSet(g, starts, func(v *core.V) bool { return v == st.V }, isKW)
@@ -1397,11 +1504,13 @@ func ruleC04Lexical(c *core.Ctx) {
 				}
 				o.At(fn.Site(st.Stmt, "entry kind "+string(rune(k))))
 				seen[int64(k)] = true
+				fieldExprs := map[string][]ast.Expr{}
 				field := func(name string) string {
 					e := fields[name]
 					if e == nil {
 						return ""
 					}
+					fieldExprs[name] = nil
 					var vals []string
 					for _, vc := range copyCases(g, st.V, e) {
 						if vc.V != st.V {
@@ -1415,6 +1524,7 @@ func ruleC04Lexical(c *core.Ctx) {
 							}
 						}
 						vals = append(vals, core.ExprStr(vc.Expr))
+						fieldExprs[name] = append(fieldExprs[name], vc.Expr)
 					}
 					return strings.Join(vals, "|")
 				}
@@ -1424,34 +1534,46 @@ func ruleC04Lexical(c *core.Ctx) {
 						o.Fail("free entry stored with Pos %s", field("Pos"))
 					}
 				case 'n':
-					if field("Pos") != "a" {
-						o.Fail("in-use entry stored with Pos %s, want the parsed offset", field("Pos"))
+					pos := field("Pos")
+					all, anyConst := len(fieldExprs["Pos"]) > 0, false
+					for _, e := range fieldExprs["Pos"] {
+						if !offV[core.ObjOf(info, peelConv(info, e))] {
+							all = false
+						}
+						if _, isK := core.IntConst(info, e); isK {
+							anyConst = true
+						}
+					}
+					if !all {
+						if anyConst || pos == "" || mentionsAny(fieldExprs["Pos"], func(e ast.Expr) bool { return mentionsVar(genV, e) }) {
+							o.Fail("in-use entry stored with Pos %s, want the parsed offset", pos)
+						} else {
+							o.Unrec("in-use entry stored with Pos %s: not traced to the number parsed from bytes 0..10", pos)
+						}
 					}
 				}
-				if !strings.Contains(field("Generation"), "b") {
-					o.Fail("entry kind %c does not record the generation", rune(k))
+				gen := field("Generation")
+				if !mentionsAny(fieldExprs["Generation"], func(e ast.Expr) bool { return mentionsVar(genV, e) }) {
+					allConst := true
+					for _, e := range fieldExprs["Generation"] {
+						if _, isK := core.IntConst(info, e); !isK && !mentionsVar(offV, e) {
+							allConst = false
+						}
+					}
+					if allConst {
+						o.Fail("entry kind %c does not record the generation", rune(k))
+					} else {
+						o.Unrec("entry kind %c: the generation %s was not traced to the number parsed from bytes 11..16", rune(k), gen)
+					}
 				}
 			}
 		}
 		o.Require(seen['f'] && seen['n'], "both entry kinds must be handled")
 		// field positions: offset = buf[:10], generation = buf[11:16], kind = buf[17]
-		var slices []string
-		ast.Inspect(fn.Decl.Body, func(n ast.Node) bool {
-			switch x := n.(type) {
-			case *ast.SliceExpr:
-				if id, ok := x.X.(*ast.Ident); ok && id.Name == "buf" {
-					lo, hi := int64(0), int64(-1)
-					if x.Low != nil {
-						lo, _ = core.IntConst(info, x.Low)
-					}
-					if x.High != nil {
-						hi, _ = core.IntConst(info, x.High)
-					}
-					slices = append(slices, itoa(int(lo))+":"+itoa(int(hi)))
-				}
-			}
-			return true
-		})
+		if parseCalls == 0 {
+			o.Unrec("no strconv.ParseInt/ParseUint call was found in decodeXRefSection or its helpers: how the entry is parsed is not located")
+			return
+		}
 		o.Fact("entry field slices %v", slices)
 		has := func(s string) bool {
 			for _, x := range slices {
@@ -1594,18 +1716,85 @@ func ruleObjStmLookup(c *core.Ctx) {
 		if len(keys["First"]) == 0 {
 			o.Fail("getObjStm does not read /First")
 		}
-		// offs + firstInt
-		found := false
+		// offs + firstInt: a sum one of whose operands is the value of /First
+		info := fn.Info()
+		firstVars := map[types.Object]bool{}
+		mentionsFirstKey := func(e ast.Expr) bool {
+			hit := false
+			ast.Inspect(e, func(n ast.Node) bool {
+				if ix, ok := n.(*ast.IndexExpr); ok {
+					if k, isK := core.StringConst(info, ix.Index); isK && k == "First" {
+						hit = true
+					}
+				}
+				if id, ok := n.(*ast.Ident); ok && firstVars[info.ObjectOf(id)] {
+					hit = true
+				}
+				return !hit
+			})
+			return hit
+		}
+		for round := 0; round < 3; round++ {
+			ast.Inspect(fn.Decl.Body, func(n ast.Node) bool {
+				as, ok := n.(*ast.AssignStmt)
+				if !ok {
+					return true
+				}
+				for _, r := range as.Rhs {
+					if mentionsFirstKey(r) {
+						lid, isID := ast.Unparen(as.Lhs[0]).(*ast.Ident)
+						if !isID {
+							continue
+						}
+						if obj, isVar := info.ObjectOf(lid).(*types.Var); isVar && !obj.IsField() {
+							if b, isB := obj.Type().Underlying().(*types.Basic); isB && b.Info()&types.IsInteger != 0 {
+								firstVars[obj] = true
+							}
+						}
+					}
+				}
+				return true
+			})
+		}
+		found, handedOn := false, false
 		ast.Inspect(fn.Decl.Body, func(n ast.Node) bool {
-			if be, ok := n.(*ast.BinaryExpr); ok && be.Op == token.ADD {
-				s := core.ExprStr(be)
-				if strings.Contains(s, "offs") && strings.Contains(strings.ToLower(s), "first") {
+			switch x := n.(type) {
+			case *ast.BinaryExpr:
+				if x.Op == token.ADD {
+					s := core.ExprStr(x)
+					if strings.Contains(s, "offs") && strings.Contains(strings.ToLower(s), "first") {
+						found = true
+					}
+					if mentionsFirstKey(x.X) != mentionsFirstKey(x.Y) {
+						found = true
+					}
+				}
+			case *ast.AssignStmt:
+				if x.Tok == token.ADD_ASSIGN && len(x.Rhs) == 1 && mentionsFirstKey(x.Rhs[0]) {
 					found = true
+				}
+			case *ast.CallExpr:
+				if f := core.Callee(info, x); f != nil && f.Pkg() == fn.Obj.Pkg() && !f.Exported() {
+					for _, a := range x.Args {
+						if mentionsFirstKey(a) {
+							handedOn = true
+						}
+					}
 				}
 			}
 			return true
 		})
-		o.Require(found, "member offsets are not rebased by /First")
+		if os.Getenv("PDFVERIF_DEBUG_C04") != "" {
+			for ob := range firstVars {
+				fmt.Fprintf(os.Stderr, "firstVar %s\n", ob.Name())
+			}
+			fmt.Fprintf(os.Stderr, "found=%v handedOn=%v inlined=%d\n", found, handedOn, fn.InlinedCalls)
+		}
+		if !found && handedOn {
+			o.Unrec("the value of /First is handed to a helper; where the member offsets are rebased is not followed")
+		} else {
+			o.Require(found, "member offsets are not rebased by /First")
+		}
 	})
 }
 
@@ -2157,4 +2346,13 @@ func ruleXRefTableEntryEOL(c *core.Ctx) {
 			}
 		}
 	})
+}
+
+func mentionsAny(es []ast.Expr, pred func(ast.Expr) bool) bool {
+	for _, e := range es {
+		if pred(e) {
+			return true
+		}
+	}
+	return false
 }
